@@ -114,6 +114,8 @@ pub enum Root {
     Named { idx: u16, mirror: bool },
     Synth(Synth),
     Motif { kind: u8, a: Vec<u8>, mirror: bool },
+    /// explicit position (saved regression inputs only; never generated)
+    Fen(String),
 }
 
 #[derive(Clone, Debug, Serialize, Deserialize, PartialEq)]
@@ -129,6 +131,7 @@ pub struct PlayCase {
 
 pub fn build_root(r: &Root) -> Option<Pos> {
     let p = match r {
+        Root::Fen(f) => Pos::from_fen(f)?,
         Root::Named { idx, mirror } => {
             let p = Pos::from_fen(ROOTS[*idx as usize % ROOTS.len()])?;
             if *mirror {
